@@ -418,3 +418,31 @@ def edge_cover_paths(g, rng, want_edge=None, sample=1.0, max_len=12, end_pred=No
                 todo.discard(ei)
         paths.append(p)
     return paths, total
+
+
+def validate_trace(ctx, module, cfg, trace_path, dest_name, label=None, timeout=900, depth_first=False):
+    """TLC trace validation (Trace_<X>.tla idiom with a high-water mark register, -workers 1).
+    Returns dict(matched, total, invariant, lines, tlc)."""
+    d = ctx.specdir()
+    shutil.copy(trace_path, os.path.join(d, dest_name))
+    r = ctx.tlc(module, cfg, workers=1, timeout=timeout, expect_ok=False, label=label or ('trace validation ' + module),
+                depth_first=depth_first)
+    m = re.search(r'<<"TRACE_MATCHED", (\d+), (\d+)>>', r['out'])
+    if not m:
+        raise Inconclusive('trace validation of %s did not finish:\n%s' % (trace_path, tail(r['out'], 30)))
+    inv = r['violation'] if r['violation'] and 'postcondition' not in r['violation'] else None
+    lines = open(trace_path).read().splitlines()
+    return {'matched': int(m.group(1)), 'total': int(m.group(2)), 'invariant': inv, 'lines': lines, 'tlc': r}
+
+
+def history_around(lines, matched):
+    """The recorded history (from the last reset) that contains the first unexplained event."""
+    idx = min(matched, len(lines) - 1)
+    start = 0
+    for j in range(idx, -1, -1):
+        if '"reset"' in lines[j]:
+            start = j
+            break
+    events = [json.loads(x) for x in lines[start:idx + 1]]
+    bad = json.loads(lines[matched]) if matched < len(lines) else None
+    return events, bad
